@@ -1640,3 +1640,7 @@ cdef class NNPS(NNPSBase):
         for name, arr in pa.properties.items():
             stride = pa.stride.get(name, 1)
             arr.c_align_array(indices, stride)
+
+        # The permutation ignores the tags: bring the real (Local) particles
+        # back to the front, as the integrators and `num_real_particles` assume.
+        pa.align_particles()
